@@ -19,10 +19,10 @@ Chk(label, F) == IF F THEN {} ELSE {label}
 Labels == {"C16_Selected", "C16_San", "C16_AcmeId", "C16_SelfSignedValid", "C16_RefuseForeign", "C17_Alive", "C17_NextValidServed"}
 
 Acme == "acme-tls/1"
-Behaviours == {"connect_close", "garbage", "plain_http", "tls_no_alpn", "tls_foreign_alpn", "abandon_after_hello", "stalled_50",
+Behaviours == {"connect_close", "connect_reset", "garbage", "plain_http", "tls_no_alpn", "tls_foreign_alpn", "abandon_after_hello", "stalled_50",
                "fd_exhaustion"}     \* more idle connections at once than the daemon has descriptors: accept() itself fails for a while
 (* which behaviours end in a failed handshake on the server side *)
-FailsHandshake(b) == b \in {"connect_close", "garbage", "plain_http", "tls_foreign_alpn", "abandon_after_hello", "stalled_50", "fd_exhaustion"}
+FailsHandshake(b) == b \in {"connect_close", "connect_reset", "garbage", "plain_http", "tls_foreign_alpn", "abandon_after_hello", "stalled_50", "fd_exhaustion"}
 FailsAccept(b) == b = "fd_exhaustion"
 
 SeqToSet(s) == {s[i] : i \in 1..Len(s)}
